@@ -176,7 +176,10 @@ func c13Nontrivial(text string, forms []int) bool {
 	return esc && special
 }
 
-var c13Alphabet = []string{"a", " ", "'", "\"", "\\", "\n", "\r", "\t", "\b", "\f", "\v", "\x00", "\u2028", "\u2029", "\u0085", "\uff07", "\uff02", "\u2019", "\uff3c", "_", "$", "\u202e", "\u2066", "\u200d", "é", "ÿ", "中", "￿", "😀", "\xff", "\x80", "x", "u", "0", "n", "1", "\x7f", "\x1b"}
+var c13Alphabet = []string{"a", " ", "'", "\"", "\\", "\n", "\r", "\t", "\b", "\f", "\v", "\x00", "\u2028", "\u2029", "\u0085", "\uff07", "\uff02", "\u2019", "\uff3c", "_", "$", "\u202e", "\u2066", "\u200d", "é", "ÿ", "中", "￿", "😀", "\xff", "\x80", "x", "u", "0", "n", "1", "\x7f", "\x1b",
+	// code points at the edges of the encoding: U+FFFD itself (a character like any other), the last of each
+	// UTF-8 length, the neighbours of the surrogate block, the last code point
+	"\ufffd", "\ufffe", "\u007f\u0080", "\u07ff", "\u0800", "\ud7ff", "\ue000", "\U0010ffff", "\U00010000"}
 
 // TestC13Exhaustive: all texts of length <=2 over the alphabet x all escape
 // choices x both quotes x hex case; plus the unterminated variants.
